@@ -494,10 +494,7 @@ theorem e4_emits {stmt : P Node} {k : Nat} (h5 : Emits (e5 stmt k)) : Emits (e4 
       cases b2
       case false =>
         cases accept_false hin
-        simp only [Bool.false_eq_true, if_false, bind_ok, modify_ok, pure_ok] at h
-        obtain ⟨_, _, hm, h⟩ := h
-        cases hm; cases h
-        simp at hd
+        simp [bind_ok, cur_ok, fail_ok] at h
       case true =>
         simp only [if_true, bind_ok, prev_ok, modify_ok] at h
         obtain ⟨it, s5, hpv2, _, s6, hm, h⟩ := h
@@ -837,7 +834,7 @@ theorem kvLoop_emits {stmt : P Node} (hs : Emits stmt) (j : Nat) :
         obtain ⟨tk, s3, hpv, c, s4, hc, v, s5, hv, h⟩ := h
         cases hpv
         split at h
-        · simp [fail_ok] at h
+        · simp [raiseAt_ok] at h
         · simp only [bind_ok] at h
           obtain ⟨b3, s6, ha3, h⟩ := h
           cases b3
